@@ -636,10 +636,56 @@ func (t UnicodeVariations) GetGlyphVariant(r, selector rune) (GID, uint8) {
 }
 
 // Handle legacy font with remap
-// TODO: the Iter() and RuneRanges() method does not include the additional mapping
+
+// remaperIter yields the mapping of the wrapped cmap, then the runes
+// that only the remaper maps
+type remaperIter struct {
+	CmapIter      // over the wrapped cmap
+	remaper  Cmap // the wrapped cmap with the additional mapping
+	wrapped  Cmap
+	done     bool // true when the wrapped cmap is exhausted
+	r, last  rune // the additional runes are searched in [r, last]
+	gid      GID  // the glyph of r, valid after Next
+}
+
+func (it *remaperIter) Next() bool {
+	if !it.done {
+		if it.CmapIter.Next() {
+			return true
+		}
+		it.done = true
+	}
+	for ; it.r <= it.last; it.r++ {
+		if _, ok := it.wrapped.Lookup(it.r); ok {
+			continue // already yielded
+		}
+		if gid, ok := it.remaper.Lookup(it.r); ok {
+			it.gid = gid
+			return true
+		}
+	}
+	return false
+}
+
+func (it *remaperIter) Char() (rune, GID) {
+	if !it.done {
+		return it.CmapIter.Char()
+	}
+	r := it.r
+	it.r++
+	return r, it.gid
+}
+
+// the runes remapped by arabicPUASimpMap and arabicPUATradMap are
+// at most this one
+const arabicPUALastRune = 0xFEFC
 
 type remaperSymbol struct {
 	Cmap
+}
+
+func (rs remaperSymbol) Iter() CmapIter {
+	return &remaperIter{CmapIter: rs.Cmap.Iter(), remaper: rs, wrapped: rs.Cmap, last: 0x00FF}
 }
 
 func (rs remaperSymbol) Lookup(r rune) (GID, bool) {
@@ -665,6 +711,10 @@ type remaperPUASimp struct {
 	Cmap
 }
 
+func (rs remaperPUASimp) Iter() CmapIter {
+	return &remaperIter{CmapIter: rs.Cmap.Iter(), remaper: rs, wrapped: rs.Cmap, last: arabicPUALastRune}
+}
+
 func (rs remaperPUASimp) Lookup(r rune) (GID, bool) {
 	// try without map first
 	if g, ok := rs.Cmap.Lookup(r); ok {
@@ -680,6 +730,10 @@ func (rs remaperPUASimp) Lookup(r rune) (GID, bool) {
 
 type remaperPUATrad struct {
 	Cmap
+}
+
+func (rs remaperPUATrad) Iter() CmapIter {
+	return &remaperIter{CmapIter: rs.Cmap.Iter(), remaper: rs, wrapped: rs.Cmap, last: arabicPUALastRune}
 }
 
 func (rs remaperPUATrad) Lookup(r rune) (GID, bool) {
